@@ -41,7 +41,7 @@ def per_instance(evs):
         i = e.get("i", 0)
         if i not in virt:
             order.append(i)
-            if e["e"] == "call" and e.get("op") == "copy" and e.get("a") in virt:
+            if e["e"] == "call" and e.get("op") in ("copy", "move") and e.get("a") in virt:
                 virt[i] = list(virt[e["a"]])
             else:
                 virt[i] = []
